@@ -316,21 +316,6 @@ def execute(ctx, cases, loop, stats, nontrivial, samples):
             samples.append({'kind': case['kind'], 'case': case_json(case), 'impl': repr(impl), 'model': m})
 
 
-def fold_proof_failures(ctx):
-    """DESIGN §2.2: a theorem that no longer checks is reported as `no-failing-input-found` only if
-    the oracle found no failing input; otherwise the failing input is the report and carries the
-    proof failure along."""
-    proofs = [v for v in ctx.violations if v['kind'] == 'proof' and v['no_input']]
-    oracles = [v for v in ctx.violations if v['kind'] == 'oracle' and not v['no_input']]
-    if proofs and oracles:
-        for v in oracles[:3]:
-            if isinstance(v['replay'], dict):
-                v['replay']['proof_obligations_failing'] = [str(p['what'])[:1500] for p in proofs]
-        ctx.notes.append('proof obligations no longer checking (failing input found by the oracle): %s'
-                         % [str(p['what'])[:200] for p in proofs])
-        ctx.violations[:] = [v for v in ctx.violations if v not in proofs]
-
-
 def prepare(ctx):
     """called by the runner before the driver is built"""
     try:
@@ -380,7 +365,13 @@ def run(ctx):
         execute(ctx, rnd, loop, stats, nontrivial, samples)
     finally:
         loop.close()
-    fold_proof_failures(ctx)
+    if ctx.thorough:
+        ok, out = C.leanchecker(['Sio.Props.C13'])
+        ctx.coverage['leanchecker'] = 'ok' if ok else out
+        if not ok:
+            ctx.violation('proof', 'leanchecker rejects Sio.Props.C13: ' + out[-800:], {'leanchecker': out[-800:]},
+                          no_input=True)
+    C.fold_proof_failures(ctx)
     # keep the report small: one replay per distinct (kind of violation, class)
     if len(ctx.violations) > 12:
         seen, kept = set(), []
